@@ -72,6 +72,9 @@ class System:
         for r in range_menu(self.freq):
             for kw in (None, {}):
                 ops.append(dict(op="U", rng=list(r), kw=kw))
+        # non-default find_peaks kwargs that change WHICH peak is selected (the highest peaks are filtered out)
+        for r in ((None, None), (self.freq[1], self.freq[F - 2])):
+            ops.append(dict(op="U", rng=list(r), kw={"height": [None, 3.6]}))
         for n in (0.5, 1, 2):
             for dfn, dmc in itertools.product(("lognormal", "normal"), repeat=2):
                 for r in ((None, None), (self.freq[1], self.freq[F - 2])):
@@ -127,6 +130,7 @@ class System:
         return (tuple(np.asarray(o.valid_window_boolean_mask).tolist()),
                 tuple(np.asarray(o.valid_peak_boolean_mask).tolist()),
                 tuple(None if v is None else float(v) for v in h.rng),
+                repr(h.kw or None),
                 tuple(_f(v) for v in o._main_peak_frq))
 
     def observe(self, h):
